@@ -110,6 +110,14 @@ chk("C18", "fault_enumeration",
     "Header write atomic (as the property states); sector model as described; CRC-32 collisions would be genuine.",
     "fault injection at write() (real kills + synthesized crash states) with the real loader as oracle, ASan/UBSan", "DESIGN.md section 4 / C18", "fstore_mon")
 
+chk("C17", "exploration",
+    "For each reactor {epoll, poll, select}: one loop thread and 1..8 producers posting handlers, arming/cancelling timers and descriptor waits, closing devices with pending waits; deadline_timer/stream_socket objects "
+    "raced on the loop thread (incl. cancel of a timer whose handler is already queued while new timers are armed); cppcms::thread_pool with posting/cancelling threads and throwing jobs; every handler has a unique id and an "
+    "offline checker requires exactly one run on the loop thread with the allowed code and not before the deadline; lost handlers are decided by FIFO sentinels, not timeouts; ThreadSanitizer, ASan and plain builds with "
+    "seeded yield points. Found and fixed: descriptor requests overtaking queued ones (lost handler / spurious canceled); cancel of a just-expired timer cancelling an unrelated timer with a reused id.",
+    "Caller contract (one pending wait per direction and descriptor, objects used by one thread, raw timer ids cancelled only before they can have fired) is respected by the workload; stop() racing with post() only at-most-once.",
+    "ThreadSanitizer + offline exactly-once checker over unique-id event logs with ordering sentinels", "DESIGN.md section 4 / C17", "aio_mon")
+
 ENGINES = [
     dict(name="check", path="check", kind_free_text="python3 driver: builds flavors from /repo's working tree, runs monitors in parallel, known-findings matching, evidence"),
     dict(name="utf_mon", path="harness/utf_mon.cpp", serves_properties=["C14"], kind_free_text="in-process monitor, reference decoder oracle"),
@@ -122,6 +130,7 @@ ENGINES = [
     dict(name="sess_mon", path="harness/sess_mon.cpp", serves_properties=["C05"], kind_free_text="in-process cookie tampering monitor"),
     dict(name="sess_hist", path="harness/sess_hist.cpp", serves_properties=["C06"], kind_free_text="in-process session history monitor with browser/adversary simulation and model"),
     dict(name="fstore_mon", path="harness/fstore_mon.cpp", serves_properties=["C18"], kind_free_text="crash-point enumerator for session_file_storage with write()/open() shims"),
+    dict(name="aio_mon", path="harness/aio_mon.cpp", serves_properties=["C17"], kind_free_text="multi-threaded event-loop / worker-pool monitor (tsan, asan, plain flavors)"),
     dict(name="codec_mon", path="harness/codec_mon.cpp", serves_properties=["C15"], kind_free_text="in-process monitor, inverse-function oracles"),
     dict(name="crypto_mon", path="harness/crypto_mon.cpp", serves_properties=["C16"], kind_free_text="in-process differential monitor against libgcrypt"),
     dict(name="ser_mon", path="harness/ser_mon.cpp", serves_properties=["C19"], kind_free_text="in-process monitor, shadow reader; also libFuzzer target ser_fuzz"),
